@@ -1,5 +1,107 @@
 import Driver.Proto
-/-! C18 handler (not implemented yet). -/
+import ThunderModel.Gql.Args
+/-! C18 handler. Wire forms:
+ATy: "bool"|"float"|"str"|"bytes"|"time"|"text" | {"int":[bits,signed]} | {"enum":[ids]} | {"ptr":T} | {"opt":T} | {"list":T} | {"struct":[[k,T]]}
+JV:  null | {"b":bool} | {"num":[tok,trunc]} | {"str":tok} | {"enum":id} | [JV…] | {"obj":[[k,JV]]}
+Lit: {"int":[n,tok]} | {"float":[tok,trunc]} | {"str":tok} | {"enumstr":id} | {"b":bool} | {"enum":id} | {"list":[Lit]} | {"obj":[[k,Lit]]} | {"var":name}
+GV:  {"b"}|{"i":[bits,signed,v]}|{"f":tok}|{"s":tok}|{"y":tok}|{"t":tok}|{"e":id}|{"x":tok}|null(nil)|{"p":GV}|{"l":[GV]}|{"o":[[k,GV]]} -/
+open Lean TM.Args
+
 namespace Driver.C18
-def handle : Handler := fun _ => throw "C18: no model yet"
+
+def decWidth (n : Nat) : Except String Width :=
+  match n with
+  | 8 => pure .w8 | 16 => pure .w16 | 32 => pure .w32 | 64 => pure .w64
+  | _ => throw "bad width"
+
+def pairs {α} (f : Json → Except String α) (j : Json) : Except String (List (Nat × α)) := do
+  let a ← j.getArr?
+  a.toList.mapM fun kv => do
+    let p ← kv.getArr?
+    pure (← (p[0]?.getD Json.null).getNat?, ← f (p[1]?.getD Json.null))
+
+partial def decTy (j : Json) : Except String ATy :=
+  match j with
+  | .str "bool" => pure .bool | .str "float" => pure .float | .str "str" => pure .str
+  | .str "bytes" => pure .bytes | .str "time" => pure .time | .str "text" => pure .text
+  | _ => do
+    if let .ok v := j.getObjVal? "int" then
+      let a ← v.getArr?
+      return .int ⟨← decWidth (← (a[0]?.getD Json.null).getNat?), ← (a[1]?.getD Json.null).getBool?⟩
+    if let .ok v := j.getObjVal? "enum" then return .enum (← nats v)
+    if let .ok v := j.getObjVal? "ptr" then return .ptr (← decTy v)
+    if let .ok v := j.getObjVal? "opt" then return .optional (← decTy v)
+    if let .ok v := j.getObjVal? "list" then return .list (← decTy v)
+    if let .ok v := j.getObjVal? "struct" then return .struct (← pairs decTy v)
+    throw "bad ATy"
+
+partial def decJV (j : Json) : Except String JV :=
+  match j with
+  | .null => pure .null
+  | .arr xs => do pure (.list (← xs.toList.mapM decJV))
+  | _ => do
+    if let .ok v := j.getObjVal? "b" then return .b (← v.getBool?)
+    if let .ok v := j.getObjVal? "num" then
+      let a ← v.getArr?
+      return .num (← (a[0]?.getD Json.null).getInt?) (← (a[1]?.getD Json.null).getInt?)
+    if let .ok v := j.getObjVal? "str" then return .str (← v.getInt?)
+    if let .ok v := j.getObjVal? "enum" then return .enumStr (← v.getNat?)
+    if let .ok v := j.getObjVal? "obj" then return .obj (← pairs decJV v)
+    throw "bad JV"
+
+partial def decLit (j : Json) : Except String Lit := do
+  if let .ok v := j.getObjVal? "int" then
+    let a ← v.getArr?
+    return .int (← (a[0]?.getD Json.null).getInt?) (← (a[1]?.getD Json.null).getInt?)
+  if let .ok v := j.getObjVal? "float" then
+    let a ← v.getArr?
+    return .float (← (a[0]?.getD Json.null).getInt?) (← (a[1]?.getD Json.null).getInt?)
+  if let .ok v := j.getObjVal? "str" then return .str (← v.getInt?)
+  if let .ok v := j.getObjVal? "enumstr" then return .enumStrLit (← v.getNat?)
+  if let .ok v := j.getObjVal? "b" then return .b (← v.getBool?)
+  if let .ok v := j.getObjVal? "enum" then return .enum (← v.getNat?)
+  if let .ok v := j.getObjVal? "list" then return .list (← (← v.getArr?).toList.mapM decLit)
+  if let .ok v := j.getObjVal? "obj" then return .obj (← pairs decLit v)
+  if let .ok v := j.getObjVal? "var" then return .var (← v.getNat?)
+  throw "bad Lit"
+
+def widthBits : Width → Nat | .w8 => 8 | .w16 => 16 | .w32 => 32 | .w64 => 64
+
+partial def encGV : GV → Json
+  | .b v => Json.mkObj [("b", v)]
+  | .i k v => Json.mkObj [("i", Json.arr #[(widthBits k.width : Json), k.signed, (v : Json)])]
+  | .f t => Json.mkObj [("f", (t : Json))]
+  | .s t => Json.mkObj [("s", (t : Json))]
+  | .by t => Json.mkObj [("y", (t : Json))]
+  | .tm t => Json.mkObj [("t", (t : Json))]
+  | .enumv n => Json.mkObj [("e", (n : Json))]
+  | .text t => Json.mkObj [("x", (t : Json))]
+  | .nil => .null
+  | .ptr v => Json.mkObj [("p", encGV v)]
+  | .list xs => Json.mkObj [("l", Json.arr (xs.map encGV).toArray)]
+  | .struct fs => Json.mkObj [("o", Json.arr (fs.map fun (k, v) => Json.arr #[(k : Json), encGV v]).toArray)]
+
+def decVarDef (j : Json) : Except String VarDef := do
+  let d ← match j.getObjVal? "default" with
+    | .ok .null => pure none
+    | .ok v => do pure (some (← decLit v))
+    | .error _ => pure none
+  pure ⟨← nat j "name", ← bool j "nonNull", d⟩
+
+def handle : Handler := fun req => do
+  let op ← str req "op"
+  match op with
+  | "args" =>
+    -- the whole pipeline for one field: variable defaults, literal → JSON, JSON → Go value
+    let τ ← decTy (← field req "type")
+    let lit ← decLit (← field req "lit")
+    let vars ← pairs decJV (← field req "vars")
+    let defs ← listOf decVarDef (← field req "defs")
+    let res : Except Err GV := do
+      let vars' ← applyDefaults defs vars
+      let j ← litJson vars' lit
+      parse (τ.depth + 2) τ j
+    pure <| Json.mkObj [("res", match res with | .ok v => Json.mkObj [("ok", encGV v)] | .error _ => Json.mkObj [("err", "rejected")])]
+  | _ => throw s!"C18: unknown op {op}"
+
 end Driver.C18
